@@ -54,6 +54,50 @@ def payload_verbatim(eng, ctx, rid="C07.D3"):
     return pf
 
 
+def helper_bodies(eng, ctx, only=None):
+    """The byte-packing helpers: len2bytes(x) = len(x).to_bytes(2, 'big'), crc2bytes(x) = calc_crc24q(x).to_bytes(3, 'big') (C07-D1; the CRC one is shared with C08:
+    "the checksum helper returns the remainder of every byte string" covers its 3-byte form too)."""
+    fr = oracle("frames.json")["rtcm3"]
+    crcw = fr["crc_bytes"]
+    # helper bodies
+    for qual, inner, width, label in (("rtcmhelpers.len2bytes", ("builtin", "len"), fr["header_bytes"] - 1, "length"), ("rtcmhelpers.crc2bytes", ("func", "rtcmhelpers.calc_crc24q"), crcw, "CRC")):
+        if only is not None and label not in only:
+            continue
+        f = eng.repo.func(qual)
+        ctx.touch(func=qual)
+        s2 = eng.symeval(qual)
+        r2 = [e for e in s2.effects if e.kind == "return"]
+        par = ("param", f.params[0])
+        for e in r2:
+            t = e.term
+            ok = (t[0] == "call" and t[2][0] == "attr" and t[2][2] == "to_bytes" and t[2][1][0] == "call" and t[2][1][2] == inner and t[2][1][3] == (par,) and not e.guards)
+            args = t[3] if t[0] == "call" else ()
+            kw = dict(t[4]) if t[0] == "call" else {}
+            n = args[0] if args else kw.get("length")
+            order = args[1] if len(args) > 1 else kw.get("byteorder")
+            signed = kw.get("signed", ("const", False))
+            ok = ok and n == ("const", width) and order == ("const", fr["length_byteorder"]) and signed == ("const", False)
+            if not ok and not e.guards:
+                # equivalent byte packing: bytes((v >> 16, (v >> 8) & 0xFF, v & 0xFF)) for a value known to fit (the 24-bit CRC)
+                segs = CatContext().to_cat(t)
+                src = ("call",)  # find the inner call term v
+                inner_calls = [st for st in subterms(t) if isinstance(st, tuple) and st and st[0] == "call" and st[2] == inner and st[3] == (par,)]
+                if segs and len(segs) == width and all(sg[0] == "int8" for sg in segs) and inner_calls and inner == ("func", "rtcmhelpers.calc_crc24q"):
+                    from ..domains import BVContext
+
+                    bvc = BVContext()
+                    bvc.declare(inner_calls[0], "v", 8 * width)  # calc_crc24q returns a value below 2^24 (C08-D1: returned value = the 24-bit state)
+                    good = True
+                    for i, sg in enumerate(segs):
+                        bv = bvc.to_bv(sg[1])
+                        lo = 8 * (width - 1 - i)
+                        good = good and bv is not None and bv.known() and bv.width() <= 8 and all(bv.bit(k) == bvc.syms.bit(f"v.b{lo + k}") for k in range(8))
+                    ok = good
+            ctx.check(bool(ok), "C07.D1", qual, f"{label} helper", expected=f"{show(inner)}(x).to_bytes({width}, '{fr['length_byteorder']}')", found=show(t)[:100], **eng.loc(f, e.node))
+        ctx.check(len(r2) == 1, "C07.D1", qual, "single return", expected="1", found=str(len(r2)), **eng.loc(f, f.node))
+
+
+
 def run(eng, ctx):
     fr = oracle("frames.json")["rtcm3"]
     crcw = oracle("frames.json")["crc24q"]["width"] // 8
@@ -94,40 +138,7 @@ def run(eng, ctx):
         okc = cpart[0] == "src" and cpart[2] == 0 and cpart[3] is None and is_func_call(cpart[1], "rtcmhelpers.crc2bytes") and len(cpart[1][3]) == 1
         covered = cat.to_cat(cpart[1][3][0]) if okc else None
         ctx.check(okc and covered == segs[:3], "C07.D1", ser.qualname, "CRC part", expected="crc2bytes(HDR ‖ len2bytes(P) ‖ P)", found=(cat.render(covered) if covered else show(cpart[1])[:80]) if cpart[0] == "src" else repr(cpart), **loc)
-    # helper bodies
-    for qual, inner, width, label in (("rtcmhelpers.len2bytes", ("builtin", "len"), fr["header_bytes"] - 1, "length"), ("rtcmhelpers.crc2bytes", ("func", "rtcmhelpers.calc_crc24q"), crcw, "CRC")):
-        f = eng.repo.func(qual)
-        ctx.touch(func=qual)
-        s2 = eng.symeval(qual)
-        r2 = [e for e in s2.effects if e.kind == "return"]
-        par = ("param", f.params[0])
-        for e in r2:
-            t = e.term
-            ok = (t[0] == "call" and t[2][0] == "attr" and t[2][2] == "to_bytes" and t[2][1][0] == "call" and t[2][1][2] == inner and t[2][1][3] == (par,) and not e.guards)
-            args = t[3] if t[0] == "call" else ()
-            kw = dict(t[4]) if t[0] == "call" else {}
-            n = args[0] if args else kw.get("length")
-            order = args[1] if len(args) > 1 else kw.get("byteorder")
-            signed = kw.get("signed", ("const", False))
-            ok = ok and n == ("const", width) and order == ("const", fr["length_byteorder"]) and signed == ("const", False)
-            if not ok and not e.guards:
-                # equivalent byte packing: bytes((v >> 16, (v >> 8) & 0xFF, v & 0xFF)) for a value known to fit (the 24-bit CRC)
-                segs = CatContext().to_cat(t)
-                src = ("call",)  # find the inner call term v
-                inner_calls = [st for st in subterms(t) if isinstance(st, tuple) and st and st[0] == "call" and st[2] == inner and st[3] == (par,)]
-                if segs and len(segs) == width and all(sg[0] == "int8" for sg in segs) and inner_calls and inner == ("func", "rtcmhelpers.calc_crc24q"):
-                    from ..domains import BVContext
-
-                    bvc = BVContext()
-                    bvc.declare(inner_calls[0], "v", 8 * width)  # calc_crc24q returns a value below 2^24 (C08-D1: returned value = the 24-bit state)
-                    good = True
-                    for i, sg in enumerate(segs):
-                        bv = bvc.to_bv(sg[1])
-                        lo = 8 * (width - 1 - i)
-                        good = good and bv is not None and bv.known() and bv.width() <= 8 and all(bv.bit(k) == bvc.syms.bit(f"v.b{lo + k}") for k in range(8))
-                    ok = good
-            ctx.check(bool(ok), "C07.D1", qual, f"{label} helper", expected=f"{show(inner)}(x).to_bytes({width}, '{fr['length_byteorder']}')", found=show(t)[:100], **eng.loc(f, e.node))
-        ctx.check(len(r2) == 1, "C07.D1", qual, "single return", expected="1", found=str(len(r2)), **eng.loc(f, f.node))
+    helper_bodies(eng, ctx)
     hdr = eng.ce.value("rtcmtypes_core", "RTCM_HDR")
     ctx.check(hdr == bytes([fr["preamble"]]), "C07.D1", "rtcmtypes_core.RTCM_HDR", "preamble constant", expected=repr(bytes([fr["preamble"]])), found=repr(hdr), file=eng.repo.relpath("rtcmtypes_core"), line=0)
 
@@ -136,6 +147,9 @@ def run(eng, ctx):
     SH.payload_slice(eng, ctx, "C01.D5")
     ctx.check(1 + (fr["header_bytes"] - 1) == fr["header_bytes"] and crcw == fr["crc_bytes"], "C07.D2", "oracle", "framing constants consistent", expected="1+2 = 3 header bytes, 3 CRC bytes", found=f"{fr['header_bytes']}, {fr['crc_bytes']}", file="oracle/frames.json", line=0)
     SH.crc_transfer(eng, ctx, "C08.D1")
+    # "parsing that output gives a message with the same ... attribute values": the decode is a function of the payload alone - nothing it reads was
+    # left behind by an earlier parse (C13-D1 in the decoder, shared)
+    SH.decoder_reads_no_mutable_state(eng, ctx, "C13.D1")
 
     # ---------------- D4 repr
     ctx.rule("C07.D4", "the repr template parses as <EnclosingClass>(payload=<hole>) with the stored payload as the hole, unconverted or !r")
